@@ -602,7 +602,11 @@ def process_template(vf, tpath, sources, default_props=()):
             continue
         d, arg = m.group(1), m.group(2)
         indent = re.match(r'^\s*', ln).group(0)
-        if d == 'item':
+        if d == 'include':
+            inc = os.path.join(os.path.dirname(tpath), arg.strip())
+            process_template(vf, inc, sources, default_props)
+            i += 1
+        elif d == 'item':
             a = arg.split()
             emit_item(vf, getsrc(a[0]), a[1].split('::'), indent, keep_pub=('pub' in a[2:]))
             i += 1
